@@ -82,14 +82,15 @@ PROPS = {
         modules=["Syzgy.Props.C03"], ties=["Search"],
         runs={"quick": [["search-C03", "--scenarios", "150"]], "thorough": [["search-C03", "--scenarios", "1500"]]},
         trusted=SEARCH_TRUST,
-        statement="bounded max-heap scan = K smallest / all within radius, any visiting order",
-        partial="PercentSearched = 100 is checked on the implementation only (direct oracle)",
+        statement="bounded max-heap scan = K smallest / all within radius, any visiting order; on a collection representing store D (any history): result = min(K,m) nearest accepted live documents of D with true distances",
+        partial="proved: exact_knn / exact_radius for every candidate list and visiting order; exact_search_on_collection / exact_radius_on_collection / exact_search_after_any_history: on every collection state reached by any history of document operations, with the index map visited in any order, any distance function of the stored codes and any filter, the result is the min(K,m) nearest accepted live documents of the abstract store, sorted, duplicate-free, each with its true distance and current metadata passing the filter. The float distance itself is C06; PercentSearched = 100 is checked on the implementation only (direct oracle)",
     ),
     "C16": dict(
         modules=["Syzgy.Props.C16"], ties=["Search"],
         runs={"quick": [["search-C16", "--scenarios", "120"]], "thorough": [["search-C16", "--scenarios", "1200"]]},
         trusted=SEARCH_TRUST + ["sort.Strings orders the decimal id strings (fixed order independent of offset/limit)"],
-        statement="page = take lim ∘ drop off of the filtered sorted listing",
+        statement="page = take lim ∘ drop off of the filtered sorted listing; on a collection representing store D the full listing is every accepted live document of D exactly once",
+        partial="proved: page_is_slice, pages_tile, page_infix for every item list; collection_listing: on every collection state reached by any history, with the keys visited in any order that is a function of the key set, the full listing is exactly the accepted live ids (each once) and every page is its slice. That sort.Strings is such a function is Go library behaviour (trusted); the order actually used is observed by the harness (order-agnostic oracles)",
     ),
     "C04": dict(
         modules=["Syzgy.Props.C04"], ties=["Search"],
